@@ -458,3 +458,43 @@ def drain_complete(ctx, rule, crate, crs, tag=""):
         d, _ = q.origin_thru(b, s["r"]["ops"][0])
         ctx.ob(rule + tag, b.key, "returns-conflicting-clauses", q.mentions_field(d, ENCODER_ADT, "conflicting_clauses"),
                "%s:%s" % (b.file, s["line"]), "encode hands the conflicting clause list to run_sat")
+
+CAND_ADT = "resolvo::Candidates"
+
+def hint_arms(ctx, crate, crs, tag, rule="availability"):
+    """BitSlice::set(idx, true) on the hint bits: idx = to_usize(element of the slice selected by the
+    HintDependenciesAvailable match)."""
+    b = body_by_key(crate, CACHE + "get_or_cache_candidates", coroutine=True)
+    if b is None:
+        return
+    sets = [(i, t) for i, t in b.calls() if t.get("f") and t["f"]["name"] == "set" and "bitvec" in t["f"]["path"]]
+    ctx.floor(rule + tag, "hint bit set site", len(sets), 1)
+    for i, t in sets:
+        v = t["args"][2]
+        ctx.ob(rule + tag, b.key, "hint-bit-set-true", v.get("k") == "const" and v.get("v") is True, where_call(b, i),
+               "hinted candidates are marked available")
+        d, chain = q.origin_thru(b, t["args"][1], transparent=q.TRANSPARENT | {
+            "resolvo::internal::arena::ArenaId::to_usize", "std::iter::Iterator::next", "bitvec::macros::internal::core::slice::iter"})
+        # d should be the slice local assigned in the three arms
+        ok = False
+        detail = "index does not derive from an element of the hinted slice (%s)" % d["k"]
+        if d["k"] in ("multi",):
+            arms = d.get("defs", [])
+            kinds = set()
+            for bb, idx, r in arms:
+                if idx == "term":
+                    od = {"k": "call", "bb": bb, "t": r, "proj": []}
+                else:
+                    od, _ = q.origin_thru(b, {"k": "copy", "p": r["p"]} if "p" in r else r.get("o", {}))
+                if od["k"] == "call" and od["t"].get("f") and od["t"]["f"]["name"] == "index":
+                    rd, _ = q.origin_thru(b, od["t"]["args"][1], transparent=set())   # &candidates.candidates[0..0]
+                    if rd["k"] == "rvalue" and rd["r"].get("ak") == "adt" and "Range" in rd["r"].get("adt", "") and \
+                            all(o.get("k") == "const" and o.get("v") == 0 for o in rd["r"]["ops"]):
+                        kinds.add("None:empty")
+                elif any(isinstance(e, dict) and e.get("as") == "Some" for e in od.get("proj", [])):
+                    kinds.add("Some:listed")
+                elif q.mentions_field(od, CAND_ADT, "candidates"):
+                    kinds.add("All:all")
+            ok = kinds == {"None:empty", "Some:listed", "All:all"}
+            detail = "arms found: %s" % sorted(kinds)
+        ctx.ob(rule + tag, b.key, "hint-arms", ok, where_call(b, i), detail)
